@@ -130,5 +130,7 @@ Arguments cache : clear implicits.
 Definition second : positive := 1000000000.
 Definition cache_slots : nat := 300.
 Definition wheel_cache := cache st.
-Definition wnew (expire limit : Z) : wheel_cache := cnew expire limit (init second cache_slots).
+(* NewCache uses interval `second`; the drivers may build the same cache on a wheel with a larger interval *)
+Definition wnew_at (I : positive) (expire limit : Z) : wheel_cache := cnew expire limit (init I cache_slots).
+Definition wnew (expire limit : Z) : wheel_cache := wnew_at second expire limit.
 Definition wstep : wheel_cache -> cop -> wheel_cache * option nat * bool := cstep step_ok.
